@@ -2,9 +2,8 @@
 C01 — Every required file is extracted exactly once, and nothing else is.
 Property theorems only (model: Model/Walk.lean, specification: Spec/Walk.lean).
 `Benign c` = no inode limit, no cancellation, filesystem errors not fatal, extractors do not panic
-(C09 / C10 / C02 cover the other configurations); `GiOK c root` = the gitignore matcher obeys go-git's
-domain rule (a pattern set parsed for directory d only matches paths strictly below d) and the scan
-root's own `.gitignore` has no pattern matching the name "." (which would make the root skip itself).
+(C09 / C10 / C02 cover the other configurations); `GiOK c` = the gitignore matcher obeys go-git's
+domain rule (a pattern set parsed for directory d only matches paths strictly below d).
 All statements hold for every forest, every fault plan and every combination of the scan options.
 -/
 import Scalibr.Proofs.WalkTop
@@ -15,7 +14,7 @@ namespace Scalibr.Walk
 /-- The extraction attempts of a scan are exactly the ones the specification lists — as a list: in
 enumeration order, each with its multiplicity — and the scan succeeds. `Extract` itself runs for the
 attempts whose file can be opened (`opened`). -/
-theorem C01_calls (c : Cfg) (hb : Benign c) (roots : List (Node × Faults)) (ho : ∀ rf ∈ roots, GiOK c rf.1) :
+theorem C01_calls (c : Cfg) (hb : Benign c) (roots : List (Node × Faults)) (ho : GiOK c) :
     (run c roots).err = .none ∧ (run c roots).calls = mustExtract c roots :=
   run_spec c hb roots ho
 
@@ -53,7 +52,7 @@ theorem C01_inv (c : Cfg) (hx : NoExtractorPanic c) (roots : List (Node × Fault
   exact runRoots_pkgs c hx roots _ [] [] (by simp [pkgsOfCalls]) hok
 
 /-- … and in a benign scan that inventory is determined by the specification alone. -/
-theorem C01_inv_spec (c : Cfg) (hb : Benign c) (roots : List (Node × Faults)) (ho : ∀ rf ∈ roots, GiOK c rf.1) :
+theorem C01_inv_spec (c : Cfg) (hb : Benign c) (roots : List (Node × Faults)) (ho : GiOK c) :
     (run c roots).pkgs = pkgsOfCalls c (mustExtract c roots) :=
   (run_results c hb roots ho).1
 
@@ -76,9 +75,9 @@ def exTree : Node :=
              ("skipme", .dir none [("y", .file .reg 1)]), ("big", .file .reg 11)]
 example : Benign exCfg := ⟨rfl, rfl, rfl, rfl, fun _ _ => rfl⟩
 example : DistinctNames exTree := by simp [exTree, DistinctNames, DistinctNamesL]
-theorem exGiOK : GiOK exCfg exTree := ⟨matcherMatch_domain, trivial⟩
+theorem exGiOK : GiOK exCfg := matcherMatch_domain
 example : (mustExtract exCfg [(exTree, {})]).map (fun cl => (cl.ext, cl.path)) = [(0, ["a", "x"]), (1, ["a", "x"])] := by decide
 example : (run exCfg [(exTree, {})]).calls = mustExtract exCfg [(exTree, {})] :=
-  (C01_calls exCfg ⟨rfl, rfl, rfl, rfl, fun _ _ => rfl⟩ _ (by simp [exGiOK])).2
+  (C01_calls exCfg ⟨rfl, rfl, rfl, rfl, fun _ _ => rfl⟩ _ exGiOK).2
 
 end Scalibr.Walk
